@@ -122,6 +122,43 @@ def generate(rng, tier):
                            tag="%s:%s:cut:%s" % (arch, marker, "low" if cut < base + 32 else ("high" if cut > top - 32 else "mid")))
                 s.meta[ln] = {"role": "cut", "ref": full, "cut": cut, "arch": arch, "sp0": base}
         out.append(("trunc-%s-%d" % (arch, rep), s))
+    # one unreadable word exactly where a compressed rule reads a saved register: slots around the stack pointer
+    # (x86_64: rbp saved at [rsp-16] .. [rsp+16]; aarch64: fp/lr pairs at [sp] .. [sp+32]), first and caller frames.
+    # A slot AT or above sp that cannot be read is an error naming it (only slots below sp in a first frame are
+    # forgiven: half-executed epilogues)
+    for arch in ("x86", "a64"):
+        R = ARCH_REGS[arch]
+        s = Script(arch, "may")
+        rows = []
+        if arch == "x86":
+            for cfa_w in (2, 3, 4):
+                for slot_w in (-2, -1, 0, 1, 2):               # words from rsp
+                    if slot_w < cfa_w - 1:
+                        rows.append((dict(cfa=("r", R["sp"], 8 * cfa_w), fp=("o", 8 * slot_w - 8 * cfa_w), ra=("o", -8)), [8 * slot_w]))
+        else:
+            for cfa_u in (1, 2, 3):
+                for slot_w in (0, 2):
+                    if slot_w + 2 <= 2 * cfa_u:
+                        rows.append((dict(cfa=("r", R["sp"], 16 * cfa_u), fp=("o", 8 * slot_w - 16 * cfa_u), ra=("o", 8 * slot_w + 8 - 16 * cfa_u)),
+                                     [8 * slot_w, 8 * slot_w + 8]))
+        fdes = [dict(start=0x1000 + 0x10 * i, len=0x10, rows=[(0, r)]) for i, (r, _) in enumerate(rows)]
+        s.module_dwarf("M", 0x100000, 0x102000, 0x100000, 0, "eh", fdes, rng)
+        s.add("new U"); s.add("add U M")
+        sp0 = 0x7100
+        full = {sp0 - 0x40 + 8 * i: 0x101000 + 0x10 * (i % len(rows)) + 4 for i in range(32)}
+        for i, (r, slots) in enumerate(rows):
+            for off in slots:
+                for mode in ("ip", "ra"):
+                    mid = "H%d_%d_%s" % (i, off & 0xffff, mode)
+                    hole = sp0 + off
+                    s.mem(mid, sorted((a, v) for a, v in full.items() if a != hole))
+                    a = 0x101000 + 0x10 * i + 4 + (1 if mode == "ra" else 0)
+                    regs = s.regs_x86(a, sp0, 0x7180) if arch == "x86" else s.regs_a64(M64, 0x101234, sp0, 0x7180)
+                    s.add("newcache C")
+                    ln = s.add("unwind U C %s %s %s %s" % (mode, hx(a), regs, mid), tag="%s:hole:%s:%d" % (arch, mode, off))
+                    if not (mode == "ip" and off < 0):
+                        s.meta[ln] = {"role": "hole", "hole": hole}
+        out.append(("holes-%s" % arch, s))
     # PE: functions whose unwind codes compress into the pop rule (pushes and one allocation). Every cut of the stack:
     # the rule reads one word per popped register and then the return address, and must name the word it could not read
     import petruth
@@ -250,6 +287,11 @@ def judge(script, impl):
     bad = []
     for ln, m in script.meta.items():
         line = impl.get(ln)
+        if line is not None and m.get("role") == "hole":
+            o = vlib.outcome(line)
+            if o[:2] != ("err", "CouldNotReadStack") or o[2] != m["hole"]:
+                bad.append((ln, "the word at %#x, which the rule reads, is unreadable: expected Err(CouldNotReadStack(%#x)), got %s" % (m["hole"], m["hole"], line[:200])))
+            continue
         if line is None or not line.startswith("iter"):
             continue
         its = items_of(line)
